@@ -3,7 +3,7 @@ C24 — property theorems about the model of Tornado's XSRF code (`C24/Model.lea
 `d` = whether the version regex has re.DOTALL (all theorems hold for both), `now` = int(time.time()),
 `fresh` = os.urandom(16), masks = os.urandom(4): all universally quantified parameters.
 -/
-import TornadoModel.C24.Lemmas
+import TornadoModel.C24.Inv2
 namespace TornadoModel.C24
 
 /-! ### decoding what was issued -/
@@ -221,10 +221,107 @@ theorem pick_h2 (t : Str) :
       ∧ pickInput none (some []) (some t) = some t ∧ pickInput (some []) none (some t) = some t :=
   ⟨rfl, rfl, rfl, rfl⟩
 
-/-- **session form** (stated, not proved here — exercised by the `issue` stream of the tie on every run):
-    whatever cookie request 1 arrives with (absent, undecodable, empty secret, legacy, v2), the token text
-    `xsrf_token` produces is accepted in a later request that carries the cookie in force after request 1
-    (the new `Set-Cookie` value if one was set, else the old cookie), under either output version. -/
+/-! ### sessions -/
+
+/-- what `issueTok` produces decodes to the secret, with the issue timestamp (format 2) or the clock (format 1) -/
+theorem decode_issued_stamp (d : Bool) (now : Int) (v : Nat) (token mask : Bytes) (ts : Int) (t : Str)
+    (hb : IsBytes token) (hm : mask.length = 4) (hmb : IsBytes mask)
+    (hts : (decRev ts.natAbs).length ≤ maxStrDigits) (hi : issueTok v token mask ts = .ok t) :
+    ∃ r, decode d now t = some r ∧ r.token = token ∧ (r.timestamp = now ∨ r.timestamp = ts) := by
+  unfold issueTok at hi
+  split at hi
+  · cases hi
+    exact ⟨_, decode_issue_v1 d now token hb, rfl, Or.inl rfl⟩
+  · split at hi
+    · simp only [wsMask, hm, if_true] at hi
+      cases hi
+      exact ⟨_, decode_issue_v2 d now token mask ts hb hm hmb hts, rfl, Or.inr rfl⟩
+    · cases hi
+
+/-- an issued text is a token for its secret … -/
+theorem issued_tokenFor (d : Bool) (v : Nat) (token mask : Bytes) (ts : Int) (t : Str)
+    (hne : token ≠ []) (hb : IsBytes token) (hm : mask.length = 4) (hmb : IsBytes mask) (hts : Printable ts)
+    (hi : issueTok v token mask ts = .ok t) : TokenFor d t token :=
+  ⟨issued_ne_nil v token mask ts t hne hi, fun now => decode_issued d now v token mask ts t hb hm hmb hts hi⟩
+
+/-- … and, used as the `_xsrf` cookie, carries that secret -/
+theorem issued_carries (d : Bool) (v : Nat) (token mask : Bytes) (ts : Int) (t : Str)
+    (hne : token ≠ []) (hb : IsBytes token) (hm : mask.length = 4) (hmb : IsBytes mask) (hts : Printable ts)
+    (hi : issueTok v token mask ts = .ok t) : Carries d t token := by
+  refine ⟨issued_ne_nil v token mask ts t hne hi, hne, hb,
+    fun now => decode_issued d now v token mask ts t hb hm hmb hts hi, ?_⟩
+  intro now r hp hd
+  obtain ⟨r', hd', _, hst⟩ := decode_issued_stamp d now v token mask ts t hb hm hmb hts hi
+  rw [hd] at hd'
+  cases hd'
+  rcases hst with h | h <;> rw [h] <;> assumption
+
+/-- a token for the secret the cookie carries is accepted — at any time, whatever the server's fresh randomness,
+    from whichever source -/
+theorem carried_token_accepted (d : Bool) (now' : Int) (c t : Str) (k fresh' : Bytes) (form h1 h2 : Option Str)
+    (hc : Carries d c k) (ht : TokenFor d t k) (hp : pickInput form h1 h2 = some t) :
+    check d now' (some c) fresh' form h1 h2 = .accept := by
+  obtain ⟨v, stamp, hg, _⟩ := getRaw_carries d now' c k fresh' hc
+  obtain ⟨r, hd, hr⟩ := ht.2 now'
+  rw [accept_iff]
+  exact ⟨t, r, hp, ht.1, hd, by rw [hr]; exact hc.2.1, by rw [hr, hg]⟩
+
+/-- a request arriving with a cookie that carries a secret sets no cookie and returns a token for that secret -/
+theorem issue_step_carried (d : Bool) (q : IssueReq) (c : Str) (k : Bytes) (t : Str) (sc : Option Str) (hq : q.Ok)
+    (hcar : Carries d c k) (hx : xsrfToken d q.ver q.now (some c) q.fresh q.mask = .ok (t, sc)) :
+    sc = none ∧ TokenFor d t k := by
+  obtain ⟨_, _, hm, hmb, hnow⟩ := hq
+  obtain ⟨v, stamp, hg, hst⟩ := getRaw_carries d q.now c k q.fresh hcar
+  unfold xsrfToken at hx
+  rw [hg] at hx
+  simp only at hx
+  cases hi : issueTok q.ver k q.mask stamp with
+  | error e => rw [hi] at hx; cases hx
+  | ok t' =>
+    rw [hi] at hx
+    simp only [Option.isNone_some, Bool.false_eq_true, if_false, Except.ok.injEq, Prod.mk.injEq] at hx
+    obtain ⟨rfl, rfl⟩ := hx
+    exact ⟨rfl, issued_tokenFor d _ _ _ _ _ hcar.2.1 hcar.2.2.1 hm hmb (hst hnow) hi⟩
+
+/-- one request: whatever (textual) cookie it arrives with, if `xsrf_token` returns, the cookie in force afterwards
+    carries some secret `k` and the returned text is a token for `k`; a cookie that already carried a secret is
+    left alone (no `Set-Cookie`) and keeps its secret (`issue_step_carried`) -/
+theorem issue_step (d : Bool) (q : IssueReq) (cookie : Option Str) (t : Str) (sc : Option Str) (hq : q.Ok)
+    (hcookie : ∀ s, cookie = some s → IsText s)
+    (hx : xsrfToken d q.ver q.now cookie q.fresh q.mask = .ok (t, sc)) :
+    ∃ c k, cookieAfter cookie sc = some c ∧ Carries d c k ∧ TokenFor d t k := by
+  obtain ⟨hfne, hfb, hm, hmb, hnow⟩ := hq
+  unfold xsrfToken at hx
+  rcases getRaw_cases d q.now cookie q.fresh with hg | ⟨s, v, b, bs, stamp, hck, hsne, hd, hg⟩
+  · rw [hg] at hx
+    simp only at hx
+    cases hi : issueTok q.ver q.fresh q.mask q.now with
+    | error e => rw [hi] at hx; cases hx
+    | ok t' =>
+      rw [hi] at hx
+      simp only [Option.isNone_none, if_true, Except.ok.injEq, Prod.mk.injEq] at hx
+      obtain ⟨rfl, rfl⟩ := hx
+      exact ⟨t', q.fresh, rfl, issued_carries d _ _ _ _ _ hfne hfb hm hmb hnow hi,
+        issued_tokenFor d _ _ _ _ _ hfne hfb hm hmb hnow hi⟩
+  · rw [hg] at hx
+    simp only at hx
+    have hcar := carries_of_decode d q.now s v b bs stamp (hcookie s hck) hsne hnow hd
+    have hst : Printable stamp := hcar.2.2.2.2 q.now _ hnow hd
+    cases hi : issueTok q.ver (b :: bs) q.mask stamp with
+    | error e => rw [hi] at hx; cases hx
+    | ok t' =>
+      rw [hi] at hx
+      simp only [Option.isNone_some, Bool.false_eq_true, if_false, Except.ok.injEq, Prod.mk.injEq] at hx
+      obtain ⟨rfl, rfl⟩ := hx
+      exact ⟨s, b :: bs, by simp [cookieAfter, hck], hcar,
+        issued_tokenFor d _ _ _ _ _ (by simp) hcar.2.2.1 hm hmb hst hi⟩
+
+/-- **session form**, as first stated: whatever cookie request 1 arrives with (absent, undecodable, empty secret,
+    legacy, v2), the token text `xsrf_token` produces is accepted in a later request that carries the cookie in
+    force after request 1 (the new `Set-Cookie` value if one was set, else the old cookie), under either output
+    version.  As written the cookie ranges over *all* lists of naturals, and for a "code point" ≥ 0x110000 the
+    model's UTF-8 encoder yields a non-octet, so the statement is false for the model (`session_issued_accepted_refuted`);
+    no Python `str` holds such a code point — `session_issued_accepted_partial` is the statement for every `str`. -/
 def session_issued_accepted_goal : Prop :=
   ∀ (d : Bool) (now now' : Int) (ver : Nat) (cookie : Option Str) (fresh fresh' mask : Bytes) (t : Str)
     (sc : Option Str) (form h1 h2 : Option Str),
@@ -233,6 +330,89 @@ def session_issued_accepted_goal : Prop :=
     xsrfToken d ver now cookie fresh mask = .ok (t, sc) →
     pickInput form h1 h2 = some t →
     check d now' (match sc with | some c => some c | none => cookie) fresh' form h1 h2 = .accept
+
+/-- **session_issued_accepted** for every Python `str` cookie (code points < 0x110000 — decidable side condition):
+    the token `xsrf_token` renders in request 1 — any cookie state, any output version, mask, time — is accepted in
+    any later request (any time, any fresh randomness, any source) that carries the cookie then in force. -/
+theorem session_issued_accepted_partial :
+  ∀ (d : Bool) (now now' : Int) (ver : Nat) (cookie : Option Str) (fresh fresh' mask : Bytes) (t : Str)
+    (sc : Option Str) (form h1 h2 : Option Str),
+    (∀ s, cookie = some s → IsText s) →
+    fresh ≠ [] → IsBytes fresh → mask.length = 4 → IsBytes mask →
+    (decRev now.natAbs).length ≤ maxStrDigits →
+    xsrfToken d ver now cookie fresh mask = .ok (t, sc) →
+    pickInput form h1 h2 = some t →
+    check d now' (match sc with | some c => some c | none => cookie) fresh' form h1 h2 = .accept := by
+  intro d now now' ver cookie fresh fresh' mask t sc form h1 h2 hck hfne hfb hm hmb hnow hx hp
+  obtain ⟨c, k, hca, hcar, htf⟩ :=
+    issue_step d ⟨ver, now, fresh, mask⟩ cookie t sc ⟨hfne, hfb, hm, hmb, hnow⟩ hck hx
+  change check d now' (cookieAfter cookie sc) fresh' form h1 h2 = .accept
+  rw [hca]
+  exact carried_token_accepted d now' c t k fresh' form h1 h2 hcar htf hp
+
+/-- the statement over raw `List Nat` cookies fails in the model for a non-Unicode "code point": cookie `[0x400000]`
+    → `utf8` gives the non-octet 256 → secret `[256,128,128,128]` → issued text "g0808080", which decodes to another
+    secret.  An artefact of the model's unbounded code points, not of the code (a `str` cannot hold 0x400000). -/
+theorem session_issued_accepted_refuted : ¬ session_issued_accepted_goal := by
+  intro h
+  have := h false 0 0 1 (some [0x400000]) [1] [1] [0, 0, 0, 0]
+    [103, 48, 56, 48, 56, 48, 56, 48] none (some [103, 48, 56, 48, 56, 48, 56, 48]) none none
+    (by decide) (by decide) (by decide) (by decide) (by simp [decRev, maxStrDigits]) (by rfl) (by decide)
+  revert this
+  decide
+
+/-- **a whole session**: the browser starts with any (textual) cookie or none, makes any number of requests that
+    render a token — each under its own output-version setting, mask, clock and fresh randomness — and keeps the
+    cookie of the latest `Set-Cookie`.  Every token text issued anywhere in the session is accepted, at any later
+    time and from any source, with the cookie in force at the end of the session. -/
+theorem session_all_accepted (d : Bool) (cookie : Option Str) (qs : List IssueReq)
+    (hck : ∀ s, cookie = some s → IsText s) (hqs : ∀ q ∈ qs, q.Ok)
+    (t : Str) (ht : t ∈ (sessionRun d cookie qs).2)
+    (now' : Int) (fresh' : Bytes) (form h1 h2 : Option Str) (hp : pickInput form h1 h2 = some t) :
+    check d now' (sessionRun d cookie qs).1 fresh' form h1 h2 = .accept := by
+  -- once the cookie carries a secret it is never replaced and every later token is for that secret
+  have stable : ∀ (qs : List IssueReq) (c : Str) (k : Bytes), (∀ q ∈ qs, q.Ok) → Carries d c k →
+      (sessionRun d (some c) qs).1 = some c ∧ ∀ t ∈ (sessionRun d (some c) qs).2, TokenFor d t k := by
+    intro qs
+    induction qs with
+    | nil => intro c k _ _; exact ⟨rfl, fun t ht => by cases ht⟩
+    | cons q qs ih =>
+      intro c k hq hcar
+      have ih' := ih c k (fun q' hq' => hq q' (List.mem_cons_of_mem _ hq')) hcar
+      unfold sessionRun
+      cases hx : xsrfToken d q.ver q.now (some c) q.fresh q.mask with
+      | error e => exact ih'
+      | ok p =>
+        obtain ⟨t1, sc⟩ := p
+        obtain ⟨rfl, htf⟩ := issue_step_carried d q c k t1 sc (hq q (List.mem_cons_self ..)) hcar hx
+        simp only [cookieAfter]
+        refine ⟨ih'.1, ?_⟩
+        intro t ht
+        simp only [List.mem_cons] at ht
+        rcases ht with rfl | ht
+        · exact htf
+        · exact ih'.2 t ht
+  induction qs generalizing cookie with
+  | nil => cases ht
+  | cons q qs ih =>
+    have hq := hqs q (List.mem_cons_self ..)
+    have hrest : ∀ q' ∈ qs, q'.Ok := fun q' hq' => hqs q' (List.mem_cons_of_mem _ hq')
+    unfold sessionRun at ht ⊢
+    cases hx : xsrfToken d q.ver q.now cookie q.fresh q.mask with
+    | error e =>
+      rw [hx] at ht
+      exact ih cookie hck hrest ht
+    | ok p =>
+      obtain ⟨t1, sc⟩ := p
+      rw [hx] at ht
+      obtain ⟨c1, k1, hca, hcar, htf⟩ := issue_step d q cookie t1 sc hq hck hx
+      simp only [hca] at ht ⊢
+      obtain ⟨hfin, htoks⟩ := stable qs c1 k1 hrest hcar
+      rw [hfin]
+      simp only [List.mem_cons] at ht
+      rcases ht with rfl | ht
+      · exact carried_token_accepted d now' c1 _ k1 fresh' form h1 h2 hcar htf hp
+      · exact carried_token_accepted d now' c1 t k1 fresh' form h1 h2 hcar (htoks t ht) hp
 
 -- model = specification: `check_eq_spec` in `C24/SpecLink.lean`.
 
@@ -253,5 +433,33 @@ example : check false 0 (some ("abcd".toList.map Char.toNat)) [9]
 /-- an empty secret is never accepted, even against a cookie that carries the same empty secret -/
 example : check false 0 (some ("2|01020304||5".toList.map Char.toNat)) [9]
     (some ("2|01020304||5".toList.map Char.toNat)) none none = .refuseFormat := by decide
+
+/-! ### non-vacuity of the session theorems -/
+
+/-- a request that satisfies the side conditions (16 would do as well as 2 octets of randomness) -/
+example : (⟨2, 5, [0xab, 0xcd], [1, 2, 3, 4]⟩ : IssueReq).Ok :=
+  ⟨by decide, by decide, by decide, by decide, by simp [Printable, decRev, maxStrDigits]⟩
+example : IsText ("2|00000000||0".toList.map Char.toNat) := by decide
+/-- a session: the browser arrives with a cookie that carries the *empty* secret (the defect witness of docs/C24.md);
+    request 1 (format 2) replaces it and renders a token; request 2 (format 1) renders the legacy form of the same
+    secret; request 3 runs under an unknown version setting and raises.  Two tokens, one cookie in force. -/
+example : sessionRun false (some ("2|00000000||0".toList.map Char.toNat))
+      [⟨2, 5, [0xab, 0xcd], [1, 2, 3, 4]⟩, ⟨1, 7, [9], [0, 0, 0, 0]⟩, ⟨3, 7, [9], [0, 0, 0, 0]⟩]
+    = (some ("2|01020304|aacf|5".toList.map Char.toNat),
+       ["2|01020304|aacf|5".toList.map Char.toNat, "abcd".toList.map Char.toNat]) := by
+  have h5 : toDec 5 = [53] := by simp [toDec, decRev]
+  have h1 : xsrfToken false 2 5 (some ("2|00000000||0".toList.map Char.toNat)) [0xab, 0xcd] [1, 2, 3, 4]
+      = .ok ("2|01020304|aacf|5".toList.map Char.toNat, some ("2|01020304|aacf|5".toList.map Char.toNat)) := by
+    have : getRaw false 5 (some ("2|00000000||0".toList.map Char.toNat)) [0xab, 0xcd] = (none, [0xab, 0xcd], 5) := by
+      decide
+    simp only [xsrfToken, this, issueTok, wsMask, h5]
+    rfl
+  simp only [sessionRun, h1, cookieAfter]
+  decide
+/-- both are then accepted with that cookie (here: the legacy one, in the X-XSRFToken header, a year later) -/
+example : check false 31536000 (some ("2|01020304|aacf|5".toList.map Char.toNat)) [7]
+    none (some ("abcd".toList.map Char.toNat)) none = .accept := by decide
+/-- the refutation witness is not a `str` -/
+example : ¬ IsText [0x400000] := by decide
 
 end TornadoModel.C24
